@@ -46,8 +46,74 @@ class C01(ProgProp):
             d = rel.split("/")[0].replace("bytecode_", "")
             if d in COUSIN:
                 yield {"k": "corpus", "path": rel}
+            elif "dropbox" not in d:
+                yield {"k": "corpus-old", "path": rel}
+
+    def judge_corpus_old(self, case, ctx):
+        """1.0-2.2 and PyPy 3.2 files: no interpreter reads them any more.  Validity predicates: the file loads, the
+        payload is consumed exactly, and every code object has fields of the right kinds and mutually consistent sizes."""
+        res = Result()
+        rel = case.get("path", "")
+        path = os.path.join(pd.CORPUS_DIR, rel)
+        if not os.path.isfile(path) or os.path.getsize(path) > (60000 if ctx.tier == "quick" else 10 ** 6):
+            res.reject = "corpus-file-too-big-for-tier"
+            return res
+        data = open(path, "rb").read()
+        d = rel.split("/")[0].replace("bytecode_", "")
+        res.classes = ["corpus:" + d, "reference:validity-predicates"]
+        res.sample = {"corpus_file": rel, "oracle": "validity predicates (no interpreter for this version)"}
+        x, err = pd.xdis_dump(data, 0)
+        if err:
+            res.fail("C01|corpus|%s|loader-raised|%s|%s" % (d, err[0], err[2]), "%s: load raised %s: %s" % (rel, err[0], err[1]))
+            return res
+        if x.get("consumed") != x.get("payload_len") and d != "3.2pypy":
+            res.fail("C01|corpus|%s|consumed" % d, "%s: payload %s bytes, consumed %s" % (rel, x.get("payload_len"), x.get("consumed")))
+        vt = tuple(x["header"]["version"][:2])
+        str_kinds = ("y", "t")
+
+        def check(t, where):
+            f = t[1]
+            def kind(n):
+                return f[n][0] if n in f else None
+            if kind("co_code") != "y":
+                return "%s: co_code is %s" % (where, kind("co_code"))
+            for n in ("co_consts", "co_names", "co_varnames", "co_freevars", "co_cellvars"):
+                if n in f and kind(n) not in ("T", "L"):       # Python 1.0-1.2 marshalled these as lists
+                    return "%s: %s is %s, not a tuple / list" % (where, n, kind(n))
+            for n in ("co_names", "co_varnames", "co_freevars", "co_cellvars"):
+                if n in f and any(e[0] not in str_kinds for e in f[n][1]):
+                    return "%s: %s holds a non-string" % (where, n)
+            for n in ("co_filename", "co_name"):
+                if kind(n) not in str_kinds:
+                    return "%s: %s is %s" % (where, n, kind(n))
+            for n in ("co_argcount", "co_nlocals", "co_stacksize", "co_flags", "co_firstlineno"):
+                if n in f and (kind(n) != "i" or not (-1 <= int(f[n][1]) < 2 ** 31)):
+                    return "%s: %s = %s" % (where, n, f[n])
+            if vt >= (1, 3) and "co_argcount" in f and "co_varnames" in f and int(f["co_argcount"][1]) > len(f["co_varnames"][1]) + 2:
+                return "%s: co_argcount %s exceeds the %d variable names" % (where, f["co_argcount"][1], len(f["co_varnames"][1]))
+            if vt >= (1, 5) and "co_linetable" in f and (kind("co_linetable") != "y" or len(f["co_linetable"][1]) % 4):
+                return "%s: line table is not a sequence of byte pairs" % where
+            if vt >= (1, 5) and "co_stacksize" in f and not (0 <= int(f["co_stacksize"][1]) < 10000):
+                return "%s: co_stacksize = %s" % (where, f["co_stacksize"][1])
+            for j, c in enumerate(f["co_consts"][1]):
+                if c[0] == "C":
+                    r = check(c, "%s/const%d" % (where, j))
+                    if r:
+                        return r
+            return None
+        if x["tree"][0] != "C":
+            res.fail("C01|corpus|%s|not-a-code-object" % d, "%s: load_module returned %s" % (rel, x["tree"][0]))
+        else:
+            bad = check(x["tree"], "module")
+            if bad:
+                res.fail("C01|corpus|%s|implausible-field" % d, "%s: %s" % (rel, bad))
+        res.nontrivial = cn.count_codes(x["tree"]) >= 2
+        res.key = [rel]
+        return res
 
     def judge(self, case, ctx):
+        if case.get("k") == "corpus-old":
+            return self.judge_corpus_old(case, ctx)
         if case.get("k") == "corpus":
             return self.judge_corpus(case, ctx)
         res = super().judge(case, ctx)
